@@ -132,6 +132,93 @@ def real_table(repo):
     return rows
 
 
+# ---- WHERE splitting: _extract_filters / _extract_compound_filters on scripted And / Or trees
+CLS_AND, CLS_OR = Obj("class:And"), Obj("class:Or")
+ATOMS = ["a = 1", "b > 2", "c IS NULL", "d IN (1, 2)"]
+
+
+def where_trees():
+    A = [("atom", t) for t in ATOMS]
+    yield None
+    for a in A[:2]:
+        yield a
+    d1 = [(op, x, y) for op in ("and", "or") for x in A[:2] for y in A[1:3]]
+    for t in d1:
+        yield t
+    for op in ("and", "or"):
+        for x in d1[::2]:
+            yield (op, x, A[3])
+            yield (op, A[3], x)
+    yield ("and", ("and", A[0], ("or", A[1], A[2])), ("and", A[3], A[0]))
+    yield ("or", ("and", A[0], A[1]), ("and", A[2], A[3]))
+    yield ("and", ("or", ("and", A[0], A[1]), A[2]), ("or", A[3], A[0]))
+
+
+def wtext(t):
+    return t[1] if t[0] == "atom" else "%s %s %s" % (wtext(t[1]), t[0].upper(), wtext(t[2]))
+
+
+def where_node(t):
+    if t[0] == "atom":
+        return Obj("atom", {"__class__": None}, {"sql": lambda dialect=None, _t=t: wtext(_t)})
+    return Obj(t[0], {"__class__": CLS_AND if t[0] == "and" else CLS_OR, "left": where_node(t[1]), "right": where_node(t[2])}, {"sql": lambda dialect=None, _t=t: wtext(_t)})
+
+
+def filter_table(repo, real=False):
+    rows = []
+    if real:
+        import sidemantic.sql.query_rewriter as Q
+
+        class B:
+            def __init__(self, t):
+                self.t = t
+                if t[0] != "atom":
+                    self.left, self.right = mk(t[1]), mk(t[2])
+
+            def sql(self, dialect=None):
+                return wtext(self.t)
+        And, Or = type("And", (B,), {}), type("Or", (B,), {})
+
+        def mk(t):
+            return B(t) if t[0] == "atom" else (And if t[0] == "and" else Or)(t)
+
+        class FakeExp:
+            pass
+        FakeExp.And, FakeExp.Or = And, Or
+
+        class Sel:
+            def __init__(self, t):
+                w = type("W", (), {})()
+                w.this = mk(t) if t is not None else None
+                self.args = {"where": w} if t is not None else {}
+        saved = Q.exp
+        Q.exp = FakeExp
+        try:
+            for t in where_trees():
+                rw = Q.QueryRewriter.__new__(Q.QueryRewriter)
+                rw.dialect = "duckdb"
+                rows.append((t, list(rw._extract_filters(Sel(t)))))
+        finally:
+            Q.exp = saved
+        return rows
+    fn, funcs = find_function(repo + "/sidemantic/sql/query_rewriter.py", "_extract_filters", "QueryRewriter")
+    exp = Obj("exp", {"And": CLS_AND, "Or": CLS_OR})
+    for t in where_trees():
+        it = Interp(funcs, {"exp": exp})
+        sel = Obj("select", {"args": ({"where": Obj("where", {"this": where_node(t)})} if t is not None else {})})
+        res = it.call_def(fn, [sel], self_obj=Obj("self", {"dialect": "duckdb"}))
+        if not (isinstance(res, list) and all(isinstance(x, str) for x in res)):
+            raise Unsupported("_extract_filters returns %r" % (res,))
+        rows.append((t, list(res)))
+    return rows
+
+
+def wterm(t):
+    if t[0] == "atom":
+        return "WAtom %s" % q(t[1])
+    return "(%s (%s) (%s))" % ("WAnd" if t[0] == "and" else "WOr", wterm(t[1]), wterm(t[2]))
+
+
 def q(s):
     return '"%s"' % s.replace('"', '""')
 
@@ -165,13 +252,18 @@ def generate(repo):
             "From Coq Require Import String List Bool.\nRequire Import V.Model.Rewriter.\nImport ListNotations.\nOpen Scope string_scope.\n\n"
             "Definition table_graph : rgraph := %s.\n\n"
             "(* per scripted scenario: the single FROM table (None = none), the SELECT list, what the method returns (None = it raises) *)\n"
-            "Definition extract_rows : list (option string * list proj * option (list string * list string * list (string * string))) :=\n  [%s].\n" % (g, ";\n   ".join(items)))
+            "Definition extract_rows : list (option string * list proj * option (list string * list string * list (string * string))) :=\n  [%s].\n\n"
+            "(* WHERE clause (None = no WHERE) -> the filters _extract_filters / _extract_compound_filters return *)\n"
+            "Definition filter_rows : list (option wexpr * list string) :=\n  [%s].\n" % (g, ";\n   ".join(items),
+                ";\n   ".join("(%s, [%s])" % ("None" if t is None else "Some (%s)" % wterm(t), "; ".join(q(x) for x in r)) for t, r in filter_table(repo))))
 
 
 if __name__ == "__main__":
     repo = sys.argv[1] if len(sys.argv) > 1 else "/repo"
     a, b = table(repo), table(repo, real=True)
     print(len(a), a == b)
+    fa, fb = filter_table(repo), filter_table(repo, real=True)
+    print(len(fa), fa == fb)
     if a != b:
         for x, y in zip(a, b):
             if x != y:
